@@ -607,6 +607,9 @@ def set_notebook_diff_targets(sources=True, outputs=True, attachments=True,
         '/cells/*/outputs/*/metadata': not metadata,
         '/cells/*': False if details else ('execution_count',),
         '/cells/*/outputs/*': False if details else ('execution_count',),
+        # (the format version is a detail for the printer as well)
+        '/nbformat': not details,
+        '/nbformat_minor': not details,
     }
     set_notebook_diff_ignores(config)
 
